@@ -98,6 +98,11 @@ def run_layout(src):
         def keep(self, f):
             return self
 
+        def __getattr__(self, n):
+            if n in layouts.FRAGMENTS:
+                return lambda *a: self
+            raise AttributeError(n)
+
     _N[0] += 1
     fn = f"<c03lay{_N[0]}>"
     linecache.cache[fn] = (len(src), None, src.splitlines(True), fn)
@@ -118,6 +123,8 @@ def supported(meta):
     shape, ctx = meta[0], meta[1]
     if shape.startswith("closure:"):
         return ctx in ("module", "def", "method")
+    if shape.startswith("one:"):
+        return True  # one lambda on the line is the documented base case, whatever else the line holds
     if shape.startswith("named:"):
         # functions defined with def and passed by name are a documented way to supply the callable
         parts = shape.split(":")
@@ -171,6 +178,10 @@ class C03(Check):
                                                 "lambda bound to a name"], "calls": ["one", "two", "mixed with an inline lambda",
                                                                                     "two statements"]},
                   layouts.enumerate_named_functions, runner="run_lay"),
+            Space("one-call-with-neighbours", {"neighbours": "names that are fragments of the word lambda, before / after the "
+                                               "call on the same line: conditional expression, tuple, second statement, "
+                                               "method called on the result", "fragments": list(layouts.FRAGMENTS)},
+                  layouts.enumerate_one_call_with_neighbours, runner="run_lay"),
             Space("closure-reuse", {"shapes": ["loop", "helper called twice", "list comprehension", "default argument", "two sites"]},
                   layouts.enumerate_closure_reuse, runner="run_lay"),
             Space("three-calls", {"ops": layouts.OPS[:3] if Q else layouts.OPS, "params": layouts.PARAMS},
